@@ -28,17 +28,18 @@ fn sq_index() {
     kani::cover!(true, "harness end reachable");
 }
 
-/// LEDGER sq_step: adding a direction moves one step in rank/file (wrapping u8 arithmetic off the board edge)
+/// LEDGER sq_step: adding a direction moves one step in rank/file with wrapping u8 arithmetic (off the board edge the
+/// coordinate becomes 255 or 8, never another board square)
 #[kani::proof]
 fn sq_step() {
     let s = any_sq();
-    let n = s + Direction::North;
-    assert!(n.file == s.file && n.rank == s.rank + 1);
-    let so = s + Direction::South;
-    assert!(so.file == s.file && so.rank == s.rank.wrapping_sub(1));
-    let e = s + Direction::East;
-    assert!(e.rank == s.rank && e.file == s.file + 1);
-    let w = s + Direction::West;
-    assert!(w.rank == s.rank && w.file == s.file.wrapping_sub(1));
+    let dirs = [(Direction::North, 1i16, 0i16), (Direction::NorthEast, 1, 1), (Direction::East, 0, 1), (Direction::SouthEast, -1, 1),
+                (Direction::South, -1, 0), (Direction::SouthWest, -1, -1), (Direction::West, 0, -1), (Direction::NorthWest, 1, -1)];
+    let i: usize = kani::any();
+    kani::assume(i < 8);
+    let (d, dr, df) = dirs[i];
+    let t = s + d;
+    assert!(t.rank as i16 == (s.rank as i16 + dr).rem_euclid(256));
+    assert!(t.file as i16 == (s.file as i16 + df).rem_euclid(256));
     kani::cover!(true, "harness end reachable");
 }
